@@ -6,6 +6,7 @@ finite domain of names, and the rule objects actually shared between lax primiti
 primitives in JAX's registries after `import_all_plugins()`.
 -/
 import J2O.Model.C10
+import J2O.Model.C10Rules
 import J2O.Gen.C10
 
 namespace J2O.C10
@@ -38,5 +39,22 @@ theorem backfill_only_allowlisted :
 /-- The generic fallback transposes present in the live registry are allowlisted. -/
 theorem observed_fallback_transposes_allowlisted :
     ∀ n ∈ observedFallbackTransposes, n ∈ linearTransposeAllow := by decide +kernel
+
+/-- No target of an allow-listed pair is the source of another one: hypothesis `NoChain` of
+    `ad_pipeline_provenance` holds for the live allow-list. -/
+theorem allow_no_chain : ∀ p ∈ forwardAllow, ∀ q ∈ forwardAllow, p.2 ≠ q.1 := by decide +kernel
+
+/-- The operand-shape domains in the model are the live ones: over the tabulated shape pairs, `lax.add`'s
+    JVP rule (the rule object that is forwarded to `jax.numpy.add`) runs exactly on `laxAddDom`, and the
+    plugin primitive `jax.numpy.add` accepts exactly `jnpAddDom` (numpy broadcasting). -/
+theorem add_domain_table_sound :
+    ∀ r ∈ addDomainTable, r.2.1 = laxAddDom r.1 ∧ r.2.2 = jnpAddDom r.1 := by decide +kernel
+
+/-- … so the contract `dom new ⊆ dom orig` of `forwarded_rule_defined_on_new_domain` is violated on the
+    tabulated domain (F-C10-add-forwarded-ad-rule); whether the pair is still allow-listed is
+    `addPairForwarded` (reported by the harness, not an obligation). -/
+theorem add_contract_violated_on_table : ∃ r ∈ addDomainTable, r.2.2 = true ∧ r.2.1 = false := by decide +kernel
+
+def addPairForwarded : Bool := forwardAllow.contains ("add", "jax.numpy.add")
 
 end J2O.C10
